@@ -63,6 +63,11 @@ def all_cells():
                 continue
             for rel in (0, 2):
                 cells.append(("A-in", role, st, cls, rel))
+            # ... and the same first message with a header the session layer cannot read (a header field given twice, a MsgSeqNum that is
+            # not a number): "a first inbound message other than Logon makes the connection drop" does not depend on the rest of it
+            if cls in ("app", "hb", "custom", "rr"):
+                for hd in ("seq-dup", "seq-abc", "sender-dup", "target-dup-wrong", "seq-empty"):
+                    cells.append(("A-in", role, st, cls, 0, hd))
     # A'': a Logon that lacks a field the Logon processing needs (HeartBtInt, EncryptMethod): no Logon exchange has completed, so
     # the application message behind it (numbered as if the Logon had counted, or not) is not delivered
     for role, st in (("acceptor", "nce"), ("initiator", "logon_sent")):
@@ -233,7 +238,8 @@ async def cell_A_in(acc, clock, cell, cid):
     from asyncfix.connection import ConnectionState as CS
     from vf.sim import endpoint as E
     from vf.sim.net import settle, advance
-    _, role, st, cls, rel = cell
+    _, role, st, cls, rel = cell[:5]
+    hd = cell[5] if len(cell) > 5 else None
     b = await build(clock, role, st)
     if b is None:
         acc.add("start_state_not_reached")
@@ -242,7 +248,13 @@ async def cell_A_in(acc, clock, cell, cid):
     o = Obs(ep, j)
     s = o.live_in + rel
     mt, body = body_for(cls, s)
-    ep.vf_reader.feed(mkframe(mt, s, "PEER", "ME", body))
+    if hd is None:
+        ep.vf_reader.feed(mkframe(mt, s, "PEER", "ME", body))
+    else:
+        hdr = {"seq-dup": [(49, "PEER"), (56, "ME"), (34, s), (34, s)], "seq-abc": [(49, "PEER"), (56, "ME"), (34, "abc")], "seq-empty": [(49, "PEER"), (56, "ME"), (34, "")],
+               "sender-dup": [(49, "PEER"), (49, "PEER"), (56, "ME"), (34, s)], "target-dup-wrong": [(49, "PEER"), (56, "ME"), (56, "SOMEBODY"), (34, s)]}[hd]
+        ep.vf_reader.feed(fixwire.build([(35, mt)] + hdr + [(52, "20240101-00:00:00.000")] + list(body)))
+        acc.add("first_messages_with_an_unreadable_header")
     await settle()
     acc.oracle("A:inbound-before-logon")
     n = Obs(ep, j)
@@ -264,7 +276,7 @@ async def cell_A_in(acc, clock, cell, cid):
         return acc.violation(f"{tag}:inbound-counter-moved-by-{'sequence-reset' if cls in ('gf', 'rs') else 'non-logon'}",
                              f"inbound counter live {o.live_in}->{n.live_in} stored {o.st_in}->{n.st_in} on a {cls} before Logon", w, cid)
     if n.state > CS.DISCONNECTED_BROKEN_CONN:
-        return acc.violation(f"{tag}:not-dropped", f"state {n.state.name} after a first inbound {cls}", w, cid)
+        return acc.violation(f"{tag}:not-dropped" + (":unreadable-header" if hd else ""), f"state {n.state.name} after a first inbound {cls}" + (f" whose header has {hd}" if hd else ""), w, cid)
     if n.disc != 1:
         return acc.violation(f"{tag}:on_disconnect-count", f"on_disconnect called {n.disc} times", w, cid)
     await continuation(acc, clock, ep, j, peer, cid, w, f"A-in/{cls}")
